@@ -113,9 +113,12 @@ impl Property for C09 {
                 }
                 let norm = normalized_text(&dict, &text).unwrap_or_default();
                 let mut out = MorphemeList::empty(&dict);
+                // order-based alignment: the finer path is the C path with every token replaced by its
+                // declared units (>= 2) or kept; cursor[k] walks the A (k = 0) and B (k = 1) lists
+                let mut cursor = [0usize; 2];
                 for (i, (b, e, w)) in tc.iter().enumerate() {
-                    for (mode, mname, tm) in [(Mode::A, "A", &ta), (Mode::B, "B", &tb)] {
-                        let inside: Vec<Tok> = tm.iter().filter(|(x, y, _)| *x >= *b && *y <= *e && !(*x == *y && (*x == *b && *b != *e && false))).cloned().collect();
+                    for (mi, (mode, mname, tm)) in [(Mode::A, "A", &ta), (Mode::B, "B", &tb)].into_iter().enumerate() {
+                        let inside: Vec<Tok> = Vec::new();
                         // tokens of the finer analysis lying inside the C token (empty ranges at the edges are attributed by order)
                         let units: Vec<WordId> = if w.is_oov() || w.dic() as usize >= case.dic.num_dics() {
                             vec![]
@@ -146,7 +149,7 @@ impl Property for C09 {
                                         return rep;
                                     }
                                     // same pieces as direct tokenisation
-                                    let direct: Vec<Tok> = pieces_inside(tm, *b, *e, units.len(), &tc, i);
+                                    let direct: Vec<Tok> = tm.iter().skip(cursor[mi]).take(units.len()).cloned().collect();
                                     if direct != added {
                                         rep.fail("split-into-vs-direct", format!("text {:?}: C token {} split on demand {:?} but mode {} gives {:?}", text, i, added, mname, direct));
                                         return rep;
@@ -158,14 +161,18 @@ impl Property for C09 {
                                 return rep;
                             }
                         }
+                        let take = if units.len() >= 2 { units.len() } else { 1 };
+                        let direct_all: Vec<Tok> = tm.iter().skip(cursor[mi]).take(take).cloned().collect();
+                        cursor[mi] += take;
                         if units.is_empty() {
                             // unchanged in the finer analysis
-                            if !tm.contains(&(*b, *e, *w)) {
-                                rep.fail("unsplit-token-changed", format!("text {:?}: C token {:?} has no {} units but mode {} gives {:?}", text, (b, e, w), mname, mname, inside));
+                            if direct_all != vec![(*b, *e, *w)] {
+                                let _ = &inside;
+                                rep.fail("unsplit-token-changed", format!("text {:?}: C token {:?} has no {} units but mode {} gives {:?} at its place", text, (b, e, w), mname, mname, direct_all));
                                 return rep;
                             }
                         } else if units.len() >= 2 {
-                            let direct: Vec<Tok> = pieces_inside(tm, *b, *e, units.len(), &tc, i);
+                            let direct: Vec<Tok> = direct_all.clone();
                             let ids: Vec<WordId> = direct.iter().map(|x| x.2).collect();
                             if ids != units {
                                 rep.fail("declared-units", format!("text {:?}: C token {:?} declares {} units {:?} but mode {} gives {:?}", text, (b, e, w), mname, units, mname, direct));
@@ -198,6 +205,10 @@ impl Property for C09 {
                         }
                     }
                 }
+                if cursor[0] != ta.len() || cursor[1] != tb.len() {
+                    rep.fail("token-count", format!("text {:?}: modes A / B have {} / {} tokens, the declared units of the C tokens account for {} / {}", text, ta.len(), tb.len(), cursor[0], cursor[1]));
+                    return rep;
+                }
             }
         }
         rep
@@ -208,23 +219,3 @@ fn toks_of(ml: &MList) -> Vec<Tok> {
     toks(ml)
 }
 
-/// the `n` tokens of the finer analysis that replace C token `i` (tokens are aligned by order:
-/// every C token before `i` contributes its own number of pieces)
-fn pieces_inside(tm: &[Tok], b: usize, e: usize, n: usize, _tc: &[Tok], _i: usize) -> Vec<Tok> {
-    // first token starting at b whose successors reach e after n tokens
-    for s in 0..tm.len() {
-        if tm[s].0 == b && s + n <= tm.len() && tm[s + n - 1].1 == e {
-            // make sure the chain is contiguous
-            let mut ok = true;
-            for k in s..s + n - 1 {
-                if tm[k].1 != tm[k + 1].0 {
-                    ok = false;
-                }
-            }
-            if ok {
-                return tm[s..s + n].to_vec();
-            }
-        }
-    }
-    tm.iter().filter(|(x, y, _)| *x >= b && *y <= e).cloned().collect()
-}
